@@ -28,6 +28,8 @@ pub struct SinkState {
     pub failed: bool,
     /// after the first injected failure every later operation fails as well (dead device)
     pub sticky: bool,
+    /// > 0: a single write() accepts at most this many bytes (short writes, as a pipe or socket does)
+    pub max_write: usize,
 }
 
 /// A `Write + Seek + Send + 'static` destination whose bytes survive the writer that consumes it.
@@ -49,6 +51,14 @@ impl SharedSink {
         let s = SinkState {
             fail_at: Some((kind, n)),
             sticky,
+            ..Default::default()
+        };
+        SharedSink(Arc::new(Mutex::new(s)))
+    }
+    /// a destination that accepts at most `cap` bytes per write() call (0 = everything)
+    pub fn short_writes(cap: usize) -> SharedSink {
+        let s = SinkState {
+            max_write: cap,
             ..Default::default()
         };
         SharedSink(Arc::new(Mutex::new(s)))
@@ -97,6 +107,7 @@ impl Write for SharedSink {
         if g.should_fail(OpKind::Write) {
             return Err(injected());
         }
+        let buf = if g.max_write > 0 && buf.len() > g.max_write { &buf[..g.max_write] } else { buf };
         let pos = g.pos as usize;
         if g.data.len() < pos {
             g.data.resize(pos, 0);
